@@ -291,8 +291,13 @@ def _terminal_cause(path) -> str:
     """how the payload ended on this wrapper path"""
     if any(tested(e, ('isnone', 'self._result'), False) for e in path.events[:3]):
         return 'pre-run-exit'
-    for event in path.events:
+    for index, event in enumerate(path.events):
         if event.kind == 'handler' and event.depth == 0:
+            # only what ends the payload: an exception out of an awaited activity, not
+            # e.g. a failed attribute lookup during the clean-up
+            source = path.events[index - 1] if index else None
+            if source is None or source.kind != 'susp':
+                continue
             types = event['types']
             if any(t.endswith('CancelTask') for t in types):
                 return 'cancelled'
